@@ -247,3 +247,48 @@ def random_ttno_like(rng, nprng, par, phys_dims: Dict[int, int], *, bonds=(1, 2,
     open_dims = {i: [phys_dims[i], phys_dims[i]] for i in range(len(par))}
     ttn, canon, attach, names = build_network(TreeTensorNetworkOperator, par, bond, open_dims, rng, nprng, **kw)
     return ttn, {"par": list(par), "bond": bond, "open": open_dims, "attach": attach, "names": names, "canon": canon}
+
+
+# Shapes that exercise multi-hop centre moves, deep side branches, high-degree nodes and roots with
+# a single child; included deterministically in the quick tier of the TDVP/BUG checks.
+HARD_SHAPES = [
+    [-1, 0, 1, 0, 3, 4, 3],          # twig: spine 0-3-6 with side branches 1-2 and 4-5 of depth 2
+    [-1, 0, 0, 1, 2, 3, 4],          # spider with two legs of length 3
+    [-1, 0, 0, 0, 1, 2, 3],          # spider with three legs of length 2
+    [-1, 0, 1, 2, 2, 4, 1],          # chain rooted at an end with branches below
+    [-1, 0, 0, 0, 0, 1],             # bush: root with four children
+    [-1, 0, 1, 1, 1, 2, 5],          # inner node with three children, one of them deep
+    [-1, 0, 1, 2],                   # chain rooted at an end (root with a single child)
+]
+
+
+def fit_bonds(par, phys: Dict[int, int], bond: Dict[Tuple[int, int], int]) -> Dict[Tuple[int, int], int]:
+    """Shrink bond dimensions until no tensor has a virtual leg larger than the product of its other legs
+    (so that generic tensors have full-rank bonds and no zero padding is needed)."""
+    n = len(par)
+    bond = dict(bond)
+    changed = True
+    while changed:
+        changed = False
+        for x in range(n):
+            edges = [(par[x], x)] if par[x] >= 0 else []
+            edges += [(x, c) for c in range(n) if par[c] == x]
+            for e in edges:
+                others = phys[x]
+                for f in edges:
+                    if f != e:
+                        others *= bond[f]
+                if bond[e] > others:
+                    bond[e] = others
+                    changed = True
+    return bond
+
+
+def random_fullrank_ttns(rng, nprng, par, *, phys=(2, 3), bonds=(1, 2, 2, 3), **kw):
+    from pytreenet.ttns.ttns import TreeTensorNetworkState
+    n = len(par)
+    ph = {i: rng.choice(phys) for i in range(n)}
+    bond = fit_bonds(par, ph, random_bonds(rng, par, bonds))
+    open_dims = {i: [ph[i]] for i in range(n)}
+    ttn, canon, attach, names = build_network(TreeTensorNetworkState, par, bond, open_dims, rng, nprng, **kw)
+    return ttn, {"par": list(par), "bond": bond, "open": open_dims, "attach": attach, "names": names, "canon": canon}
